@@ -229,8 +229,9 @@ impl SchedulerCore {
 
         // Find the first thread that is not marked as busy and schedule this task on it
         for &(ref busy_rc, ref thread) in threads.iter() {
-            if let Ok(mut busy) = busy_rc.try_lock() {
-                // If the busy lock is held, then we consider the thread to be busy
+            // A thread holds its busy lock while it decides whether or not to go dormant: wait for that decision, as a
+            // thread that has just found the schedule empty would otherwise miss the queue we're trying to schedule
+            if let Ok(mut busy) = busy_rc.lock() {
                 if !*busy {
                     // Clone the busy mutex so we can return this thread to readiness
                     let also_busy =  busy_rc.clone();
